@@ -9,6 +9,7 @@ import (
 	"go/ast"
 	"go/parser"
 	"go/token"
+	"go/types"
 	"os"
 	"path/filepath"
 	"sort"
@@ -21,7 +22,7 @@ var curated = map[string]bool{
 	"stats.HistogramQuantile": true, "stats.NormalDist.Bounds": true, "stats.TDist.Bounds": true,
 	"stats.UDist.Step": true, "stats.MeanCI": true,
 	"scale.TickOptions.FindLevel": true, "scale.Linear.spacingAtLevel": true, "scale.Log.spacingAtLevel": true,
-	"scale.Linear.ebase": true,
+	"scale.Linear.ebase":    true,
 	"graphalg.NewNodeMarks": true, "graphalg.NodeMarks.grow": true, "graphalg.NodeMarks.Test": true,
 	"fit.LOESS": true, "mathx.Choose": true,
 }
@@ -59,6 +60,7 @@ func litText(e ast.Expr) (string, bool) {
 func main() {
 	repo, out := os.Args[1], os.Args[2]
 	facts := map[string]string{}
+	files := map[string][]*ast.File{}
 	var api []string
 	fset := token.NewFileSet()
 	filepath.Walk(repo, func(path string, info os.FileInfo, err error) error {
@@ -74,6 +76,7 @@ func main() {
 			os.Exit(1)
 		}
 		pkg := f.Name.Name
+		files[pkg] = append(files[pkg], f)
 		for _, d := range f.Decls {
 			switch dd := d.(type) {
 			case *ast.GenDecl:
@@ -114,6 +117,147 @@ func main() {
 		}
 		return nil
 	})
+	// state that outlives a call: package-level variables, the functions (other than init) that
+	// assign to them, and the fields of every struct type
+	for pkg, fs := range files {
+		globals := map[string]bool{}
+		for _, f := range fs {
+			for _, d := range f.Decls {
+				gd, ok := d.(*ast.GenDecl)
+				if !ok {
+					continue
+				}
+				for _, sp := range gd.Specs {
+					switch v := sp.(type) {
+					case *ast.ValueSpec:
+						if gd.Tok == token.VAR {
+							for _, nm := range v.Names {
+								if nm.Name != "_" {
+									globals[nm.Name] = true
+								}
+							}
+						}
+					case *ast.TypeSpec:
+						if st, ok := v.Type.(*ast.StructType); ok {
+							var fields []string
+							for _, fl := range st.Fields.List {
+								ty := strings.Join(strings.Fields(types.ExprString(fl.Type)), "")
+								if len(fl.Names) == 0 {
+									fields = append(fields, "(embedded):"+ty)
+								}
+								for _, nm := range fl.Names {
+									fields = append(fields, nm.Name+":"+ty)
+								}
+							}
+							facts["fields:"+pkg+"."+v.Name.Name] = strings.Join(fields, " ")
+						}
+					}
+				}
+			}
+		}
+		var gl []string
+		for g := range globals {
+			gl = append(gl, g)
+		}
+		sort.Strings(gl)
+		facts["globals:"+pkg] = strings.Join(gl, " ")
+		writes := map[string]bool{}
+		for _, f := range fs {
+			for _, d := range f.Decls {
+				fd, ok := d.(*ast.FuncDecl)
+				if !ok || fd.Body == nil || (fd.Recv == nil && fd.Name.Name == "init") {
+					continue
+				}
+				name := fd.Name.Name
+				if r := recvName(fd); r != "" {
+					name = r + "." + name
+				}
+				// names declared inside the function shadow globals: collect them roughly
+				local := map[string]bool{}
+				ast.Inspect(fd, func(n ast.Node) bool {
+					switch v := n.(type) {
+					case *ast.AssignStmt:
+						if v.Tok == token.DEFINE {
+							for _, l := range v.Lhs {
+								if id, ok := l.(*ast.Ident); ok {
+									local[id.Name] = true
+								}
+							}
+						}
+					case *ast.ValueSpec:
+						for _, nm := range v.Names {
+							local[nm.Name] = true
+						}
+					case *ast.Field:
+						for _, nm := range v.Names {
+							local[nm.Name] = true
+						}
+					case *ast.RangeStmt:
+						if v.Tok == token.DEFINE {
+							for _, e := range []ast.Expr{v.Key, v.Value} {
+								if id, ok := e.(*ast.Ident); ok {
+									local[id.Name] = true
+								}
+							}
+						}
+					}
+					return true
+				})
+				root := func(e ast.Expr) string {
+					for {
+						switch v := e.(type) {
+						case *ast.Ident:
+							return v.Name
+						case *ast.IndexExpr:
+							e = v.X
+						case *ast.SelectorExpr:
+							e = v.X
+						case *ast.StarExpr:
+							e = v.X
+						case *ast.ParenExpr:
+							e = v.X
+						default:
+							return ""
+						}
+					}
+				}
+				note := func(e ast.Expr) {
+					if r := root(e); r != "" && globals[r] && !local[r] {
+						writes[name+":"+r] = true
+					}
+				}
+				ast.Inspect(fd.Body, func(n ast.Node) bool {
+					switch v := n.(type) {
+					case *ast.AssignStmt:
+						if v.Tok != token.DEFINE {
+							for _, l := range v.Lhs {
+								note(l)
+							}
+						}
+					case *ast.IncDecStmt:
+						note(v.X)
+					case *ast.UnaryExpr:
+						if v.Op == token.AND {
+							note(v.X)
+						}
+					case *ast.CallExpr: // method calls on a global (mutex, pool, map helpers)
+						if se, ok := v.Fun.(*ast.SelectorExpr); ok {
+							if id, ok := se.X.(*ast.Ident); ok && globals[id.Name] && !local[id.Name] {
+								writes[name+":"+id.Name+"."+se.Sel.Name] = true
+							}
+						}
+					}
+					return true
+				})
+			}
+		}
+		var wl []string
+		for wv := range writes {
+			wl = append(wl, wv)
+		}
+		sort.Strings(wl)
+		facts["globalwrites:"+pkg] = strings.Join(wl, " ")
+	}
 	var keys []string
 	for k := range facts {
 		keys = append(keys, k)
